@@ -77,6 +77,16 @@ type verifC12CSR struct {
 	Default string   `json:"default"`          // deny | allow | manage : what the policy authorizer is chained with
 	Mode    string   `json:"mode,omitempty"`   // how the rules relate to the request (label only)
 	Retry   bool     `json:"retry,omitempty"`  // submit the identical CSR a second time
+
+	// Op "rotate": a sequence of CA configuration updates (CAManager.UpdateConfiguration, what ConnectCA.ConfigurationSet
+	// calls), each followed by a plain CSR (service web, allow-all) so that S7/S8 are judged right after the update.
+	Rotate []verifC12Rotation `json:"rotate,omitempty"`
+}
+
+// verifC12Rotation configures the built-in provider with the explicit key/certificate pair number To of the process.
+type verifC12Rotation struct {
+	To    int  `json:"to"`
+	Force bool `json:"force,omitempty"` // ForceWithoutCrossSigning
 }
 
 type verifC12Env struct {
@@ -84,8 +94,11 @@ type verifC12Env struct {
 	dc   string
 	td   string // canonical (lower-case) trust domain
 	keys []*ecdsa.PrivateKey
+	cas  []*structs.CARoot // externally supplied roots (key + certificate) the rotation cases switch between
 	mu   sync.Mutex
 	seen map[string]string // serial -> what it was issued for
+	// root ID -> true for every root that has been observed active in this process
+	wasActive map[string]bool
 }
 
 func verifC12NewEnv(t *testing.T) *verifC12Env {
@@ -147,6 +160,10 @@ func verifC12NewEnv(t *testing.T) *verifC12Env {
 			t.Fatalf("harness: key: %v", err)
 		}
 		env.keys = append(env.keys, k)
+	}
+	env.wasActive = map[string]bool{}
+	for i := 0; i < 3; i++ {
+		env.cas = append(env.cas, connect.TestCA(t, nil)) // trust domain = connect.TestClusterID, the server's
 	}
 	return env
 }
@@ -346,7 +363,7 @@ func verifC12Step(f verifkit.F, c *verifkit.Case, e *verifC12Env, s verifC12CSR)
 	}
 }
 
-func verifC12Submit(f verifkit.F, c *verifkit.Case, e *verifC12Env, s verifC12CSR, pemCSR string, isRetry bool) {
+func verifC12Submit(f verifkit.F, c *verifkit.Case, e *verifC12Env, s verifC12CSR, pemCSR string, isRetry bool) (issuedOK bool) {
 	rec := verifkit.For("C12")
 	csr, err := connect.ParseCSR(pemCSR)
 	if err != nil {
@@ -388,6 +405,7 @@ func verifC12Submit(f verifkit.F, c *verifkit.Case, e *verifC12Env, s verifC12CS
 	}
 	c.Label("outcome=issued")
 	rec.AddExtraInt("csr_issued", 1)
+	issuedOK = issued != nil
 	if issued == nil {
 		c.Violation(f, "C12/nil-cert-without-error", "AuthorizeAndSignCertificate returned (nil, nil)")
 		return
@@ -573,6 +591,158 @@ func verifC12Submit(f verifkit.F, c *verifkit.Case, e *verifC12Env, s verifC12CS
 	if isRetry {
 		c.Label("issued:retry-of-identical-csr")
 	}
+	return
+}
+
+// ---- CA configuration updates (root rotations) on the live server
+//
+// Oracle after EVERY CAManager.UpdateConfiguration (statement: "At all times exactly one root is active and the root
+// set is replaced atomically"; "chains to the currently active root"):
+//   T1 Store.CARoots holds exactly one root with Active == true;
+//   T2 after a successful update the active root is the certificate that was just configured; after a refused update
+//      the active root is the one that was active before;
+//   T3 every root that was active earlier in this process is still in the set (roots are only pruned 2 x LeafCertTTL
+//      = 144 h after rotation) and, unless it is the active one, is inactive with RotatedOutAt set;
+//   T4 a leaf signed right afterwards passes S1-S8 (S7: it verifies against the ACTIVE root, S8: fresh serial).
+// Not asserted: that an update is accepted, or that signing succeeds right after it (counted as a label).
+
+func verifC12RootsNow(f verifkit.F, e *verifC12Env) (all structs.CARoots, active []*structs.CARoot) {
+	_, all, err := e.srv.fsm.State().CARoots(nil)
+	if err != nil {
+		f.Fatalf("harness: CARoots: %v", err)
+	}
+	for _, r := range all {
+		if r.Active {
+			active = append(active, r)
+		}
+	}
+	return all, active
+}
+
+func verifC12SameCert(pemA, pemB string) bool {
+	a, errA := connect.ParseCert(pemA)
+	b, errB := connect.ParseCert(pemB)
+	return errA == nil && errB == nil && bytes.Equal(a.Raw, b.Raw)
+}
+
+func verifC12RotateStep(f verifkit.F, c *verifkit.Case, e *verifC12Env, s verifC12CSR) {
+	c.Label("rotation-case")
+	for i, r := range s.Rotate {
+		target := e.cas[((r.To%len(e.cas))+len(e.cas))%len(e.cas)]
+		rootsBefore, activeBefore := verifC12RootsNow(f, e)
+		for _, a := range activeBefore {
+			e.wasActive[a.ID] = true
+		}
+		kind := "rotate:to-a-root-never-seen"
+		for _, old := range rootsBefore {
+			if verifC12SameCert(old.RootCert, target.RootCert) {
+				if old.Active {
+					kind = "rotate:same-root-resubmitted"
+				} else {
+					kind = "rotate-back-to-previous-root"
+					c.NonTrivial()
+				}
+			}
+		}
+		c.Label(kind)
+		if r.Force {
+			c.Label("rotate:force-without-cross-signing")
+		}
+		args := &structs.CARequest{
+			Datacenter: e.dc,
+			Config: &structs.CAConfiguration{
+				Provider: structs.ConsulCAProvider,
+				Config: map[string]interface{}{
+					"PrivateKey":          target.SigningKey,
+					"RootCert":            target.RootCert,
+					"LeafCertTTL":         "72h",
+					"IntermediateCertTTL": "288h",
+					"CSRMaxPerSecond":     0,
+					"CSRMaxConcurrent":    0,
+				},
+				ForceWithoutCrossSigning: r.Force,
+			},
+		}
+		uerr := e.srv.caManager.UpdateConfiguration(args)
+		verifkit.For("C12").AddExtraInt("ca_config_updates", 1)
+		what := fmt.Sprintf("configuration update %d of %v (pair %d, %s, force=%v) -> err=%v", i+1, s.Rotate, r.To, kind, r.Force, uerr)
+
+		rootsAfter, activeAfter := verifC12RootsNow(f, e)
+		desc := func(rs structs.CARoots) string {
+			var out []string
+			for _, x := range rs {
+				pair := "initial"
+				for j, ca := range e.cas {
+					if verifC12SameCert(ca.RootCert, x.RootCert) {
+						pair = fmt.Sprintf("pair%d", j)
+					}
+				}
+				out = append(out, fmt.Sprintf("%s(active=%v rotatedOut=%v)", pair, x.Active, !x.RotatedOutAt.IsZero()))
+			}
+			return strings.Join(out, " ")
+		}
+		// T1
+		if len(activeAfter) != 1 {
+			c.Violation(f, "C12/config-update-leaves-not-exactly-one-active-root", "%s: the store holds %d active roots of %d; before: %s; after: %s",
+				what, len(activeAfter), len(rootsAfter), desc(rootsBefore), desc(rootsAfter))
+			return
+		}
+		for _, a := range activeAfter {
+			e.wasActive[a.ID] = true
+		}
+		// T2
+		if uerr == nil {
+			if !verifC12SameCert(activeAfter[0].RootCert, target.RootCert) {
+				c.Violation(f, "C12/active-root-is-not-the-configured-one", "%s: before: %s; after: %s", what, desc(rootsBefore), desc(rootsAfter))
+			}
+		} else {
+			c.Label("rotate:refused")
+			f.Logf("configuration update refused (not judged): %v", uerr)
+			if len(activeBefore) == 1 && activeBefore[0].ID != activeAfter[0].ID {
+				c.Violation(f, "C12/refused-config-update-changes-active-root", "%s: before: %s; after: %s", what, desc(rootsBefore), desc(rootsAfter))
+			}
+		}
+		// T3
+		for id := range e.wasActive {
+			var found *structs.CARoot
+			for _, x := range rootsAfter {
+				if x.ID == id {
+					found = x
+				}
+			}
+			switch {
+			case found == nil:
+				c.Violation(f, "C12/previously-active-root-dropped", "%s: root %s was active earlier and is gone; before: %s; after: %s", what, id, desc(rootsBefore), desc(rootsAfter))
+			case found.ID != activeAfter[0].ID && (found.Active || found.RotatedOutAt.IsZero()):
+				c.Violation(f, "C12/rotated-out-root-not-marked", "%s: root %s was active earlier: Active=%v RotatedOutAt=%v; after: %s", what, id, found.Active, found.RotatedOutAt, desc(rootsAfter))
+			}
+		}
+		// T4
+		probe := verifC12CSR{Op: "csr", URIs: []string{"spiffe://{TD}/ns/default/dc/" + e.dc + "/svc/web"}, Key: i, Default: "allow", Mode: "allow-all"}
+		pemCSR, err := verifC12BuildCSR(e, probe)
+		if err != nil {
+			f.Fatalf("harness: %v", err)
+		}
+		if verifC12Submit(f, c, e, probe, pemCSR, false) {
+			c.Label("rotate:leaf-signed-and-verified-afterwards")
+		} else {
+			c.Label("rotate:signing-failed-afterwards")
+		}
+	}
+}
+
+func verifC12GenRotation(t *rapid.T) verifC12CSR {
+	s := verifC12CSR{Op: "rotate"}
+	n := rapid.IntRange(2, 4).Draw(t, "nrotations")
+	for i := 0; i < n; i++ {
+		r := verifC12Rotation{To: rapid.IntRange(0, 2).Draw(t, "to"), Force: verifC12Weighted(t, "force", 70, 30) == 1}
+		// aim: X, Y, X — back to a root that is still listed as rotated out
+		if i >= 2 && verifC12Weighted(t, "back", 35, 65) == 1 {
+			r.To = s.Rotate[i-2].To
+		}
+		s.Rotate = append(s.Rotate, r)
+	}
+	return s
 }
 
 func verifC12ParseBundle(p string) ([]*x509.Certificate, error) {
@@ -923,6 +1093,22 @@ func TestVerifC12Sign(t *testing.T) {
 	rapid.Check(t, func(t *rapid.T) {
 		c := rec.NewCase()
 		defer c.GuardPanic(t, "C12/panic")
+		// one case in 16 is a rotation case; drawn from four fair bits because rapid's integer generators favour small
+		// values heavily (IntRange(0,99) < 6 comes up a third of the time)
+		fam := 0
+		for i := 0; i < 4; i++ {
+			fam <<= 1
+			if rapid.Bool().Draw(t, "family") {
+				fam |= 1
+			}
+		}
+		if fam == 15 {
+			s := verifC12GenRotation(t)
+			c.Op(s)
+			verifC12RotateStep(t, c, env, s)
+			c.Done()
+			return
+		}
 		s := verifC12Gen(t)
 		c.Op(s)
 		verifC12Classify(c, s)
@@ -944,13 +1130,17 @@ func TestVerifC12SignReplay(t *testing.T) {
 		c.Label("replay")
 		for _, raw := range rp.Ops {
 			var s verifC12CSR
-			if err := json.Unmarshal(raw, &s); err != nil || s.Op != "csr" {
+			if err := json.Unmarshal(raw, &s); err != nil || (s.Op != "csr" && s.Op != "rotate") {
 				continue // a replay of another part of C12
 			}
 			if env == nil {
 				env = verifC12NewEnv(t)
 			}
 			c.Op(s)
+			if s.Op == "rotate" {
+				verifC12RotateStep(t, c, env, s)
+				continue
+			}
 			verifC12Step(t, c, env, s)
 		}
 		c.Done()
